@@ -406,6 +406,24 @@ func (t *Translator) call(st *State, in *ssa.Call) {
 	if t.parent == nil && t.spec != nil && (len(t.spec.Use) > 0) {
 		t.curCall = t.callOrdinal(in)
 	}
+	if t.parent == nil && t.spec != nil && len(t.spec.Before) > 0 {
+		if n := t.callOrdinal(in); n > 0 {
+			for _, cl := range t.spec.Before[n] {
+				var li *loopInfo
+				if ls := t.inLoops[in.Block()]; len(ls) > 0 {
+					li = ls[len(ls)-1]
+				}
+				t.bodyLocals = true
+				env := t.invEnv(st, li)
+				t.bodyLocals = false
+				if li == nil {
+					env.pre = nil
+				}
+				f, _ := env.Eval(cl.E)
+				t.oblige(st, fmt.Sprintf("assert.before%d", n), cl.Label, cl.Tags, f, t.w.pos(in.Pos()), cl.Src)
+			}
+		}
+	}
 	t.call1(st, in)
 	t.stampVersions(st)
 	t.curCall = 0
@@ -426,7 +444,9 @@ func (t *Translator) call(st *State, in *ssa.Call) {
 				if ls := t.inLoops[in.Block()]; len(ls) > 0 {
 					li = ls[len(ls)-1]
 				}
+				t.bodyLocals = true
 				env := t.invEnv(st, li)
+				t.bodyLocals = false
 				if li == nil {
 					env.pre = nil
 				}
